@@ -29,7 +29,7 @@ GC_EVERY = 20
 
 
 def configs(tier, seed):
-    n = 400 if tier == 'quick' else 6000
+    n = 800 if tier == 'quick' else 10000
     return [{'name': impl + '-cache', 'impl': impl, 'mode': 'hyp', 'n': n}
             for impl in ('c', 'py')]
 
@@ -45,12 +45,18 @@ def op_strategy(draw):
     k = draw(st.sampled_from(
         ['query'] * 8 + ['reg'] * 3 + ['treg'] * 4 + ['unreg'] * 3 +
         ['sub'] * 2 + ['tsub'] * 2 + ['unsub'] * 2 + ['rbases', 'rebuild'] +
-        ['ibases'] * 3 + ['cimpl'] * 2 + ['conly', 'dprov', 'dprov', 'aprov',
-                                          'nprov']))
+        ['ibases'] * 2 + ['cimpl'] * 2 + ['conly', 'dprov', 'dprov', 'aprov',
+                                          'nprov'] + ['tspec'] * 4 +
+        ['burst']))
     if k == 'query':
-        arity = draw(st.sampled_from([0, 1, 1, 1, 1, 2, 2]))
-        return ['query', draw(st.sampled_from(ENTRY)), draw(IDX),
-                [draw(objref()) for _ in range(arity)], draw(IDX),
+        arity = draw(st.sampled_from([0, 1, 1, 1, 2, 2, 2]))
+        entry = draw(st.sampled_from(ENTRY))
+        p = draw(IDX)
+        if entry in ('subscriptions', 'subscribers') and \
+                draw(st.booleans()):
+            p = None
+        return ['query', entry, draw(IDX),
+                [draw(objref()) for _ in range(arity)], p,
                 draw(st.sampled_from(NAMES + ['']))]
     if k == 'reg':
         return ['reg', draw(IDX), draw(reguniv.reg_key_biased(2)), draw(IDX),
@@ -72,6 +78,15 @@ def op_strategy(draw):
         return ['rbases', draw(IDX), draw(st.lists(IDX, max_size=2))]
     if k == 'rebuild':
         return ['rebuild', draw(IDX)]
+    if k == 'burst':
+        # rebuild followed by a few targeted registrations, no lookups
+        # in between
+        return ['burst', draw(IDX), draw(st.integers(0, 3)), draw(IDX),
+                draw(st.integers(0, 40))]
+    if k == 'tspec':
+        return ['tspec', draw(IDX), draw(st.integers(0, 40)),
+                draw(st.lists(IDX, min_size=1, max_size=2)),
+                draw(st.integers(0, 3))]
     if k == 'ibases':
         return ['ibases', draw(IDX), draw(st.lists(IDX, max_size=2)),
                 draw(st.booleans())]
@@ -90,7 +105,8 @@ def case_strategy(draw):
     if not bp['insts']:
         bp['insts'] = [{'cls': 0, 'direct': []}]
     ops = [draw(op_strategy()) for _ in range(draw(st.integers(8, 40)))]
-    return {'bp': bp, 'ops': ops}
+    checks = draw(st.lists(st.booleans(), min_size=1, max_size=6))
+    return {'bp': bp, 'ops': ops, 'checks': checks}
 
 
 def strategy(cfg):
@@ -203,7 +219,7 @@ def run_case(case, cfg, out):
     def answer(registries, key):
         entry, r, refs, p, name = key
         reg = registries[r]
-        prov = U.prov(p)
+        prov = None if p is None else U.prov(p)
         if entry in ('lookup', 'lookup1', 'lookupAll', 'names',
                      'subscriptions'):
             specs = [as_spec(x) for x in refs]
@@ -238,9 +254,14 @@ def run_case(case, cfg, out):
     def norm(ans, objs_real=None):
         return ans
 
-    def recheck(stage):
+    def recheck(stage, rot=0, subset=False):
         twin = build_twin()
-        for key in queried[-30:]:
+        keys = queried[-30:]
+        rot = rot % len(keys)
+        keys = keys[rot:] + keys[:rot]
+        if subset:
+            keys = keys[:1 + len(keys) // 3]
+        for key in keys:
             out.checks += 1
             # object entry points create result tuples that embed object
             # ids; fresh instances differ between the two calls, so those
@@ -256,7 +277,7 @@ def run_case(case, cfg, out):
                          '%s: %s on registry %d (%s) for %r/%s/%r answers %r, '
                          'a registry that never served a lookup answers %r' % (
                              stage, key[0], key[1], U.flavours[key[1]],
-                             key[2], U.prov(key[3]).__name__, key[4], a, b))
+                             key[2], key[3], key[4], a, b))
                 return False
             kk = repr(key)
             if kk in last_twin and last_twin[kk] != _strip_ids(b):
@@ -278,6 +299,7 @@ def run_case(case, cfg, out):
             out_.append(list(s.__sro__) + [None])
         return out_
 
+    skip_pattern = case.get('checks') or [True]
     for n, op in enumerate(case['ops']):
         kind = op[0]
         mutated = True
@@ -307,7 +329,8 @@ def run_case(case, cfg, out):
                 pools = spec_pool_for(key)
                 req = [pool[(pick + i) % len(pool)]
                        for i, pool in enumerate(pools)]
-                ext = [q for q in U.provs if q.isOrExtends(U.prov(key[3]))]
+                ext = [q for q in U.provs if key[3] is None or
+                       q.isOrExtends(U.prov(key[3]))]
                 prov = ext[ppick % len(ext)]
                 name = key[4]
                 chain = M.ro(key[1])
@@ -337,8 +360,12 @@ def run_case(case, cfg, out):
                 pools = spec_pool_for(key)
                 req = [pool[(pick + i) % len(pool)]
                        for i, pool in enumerate(pools)]
-                ext = [q for q in U.provs if q.isOrExtends(U.prov(key[3]))]
-                prov = ext[pick % len(ext)]
+                if key[3] is None:
+                    prov = None
+                else:
+                    ext = [q for q in U.provs
+                           if q.isOrExtends(U.prov(key[3]))]
+                    prov = ext[pick % len(ext)]
                 chain = M.ro(key[1])
                 r = chain[r % len(chain)]
                 out.tag('targeted_subscribe')
@@ -349,7 +376,7 @@ def run_case(case, cfg, out):
         elif kind == 'unsub':
             if not subs_made:
                 continue
-            r, req, prov, v = subs_made[op[1] % len(subs_made)]
+            r, req, prov, v = subs_made[-1 - (op[1] % len(subs_made))]
             if op[2]:
                 U.regs[r].unsubscribe(req, prov, v)
                 log.append(('unsubscribe', r, req, prov, v))
@@ -389,6 +416,69 @@ def run_case(case, cfg, out):
             U.regs[r].rebuild()
             log.append(('rebuild', r))
             out.tag('rebuild')
+        elif kind == 'burst':
+            _, r, count, which, pick = op
+            r = r % len(U.regs)
+            U.regs[r].rebuild()
+            log.append(('rebuild', r))
+            for j in range(count):
+                if queried:
+                    key = queried[(which + j) % len(queried)]
+                    pools = spec_pool_for(key)
+                    req = [pool[(pick + i + j) % len(pool)]
+                           for i, pool in enumerate(pools)]
+                    ext = [q for q in U.provs if key[3] is None or
+                           q.isOrExtends(U.prov(key[3]))]
+                    prov = ext[(pick + j) % len(ext)]
+                    name = key[4]
+                else:
+                    req, prov, name = [], U.provs[0], ''
+                v = newfactory(False)
+                U.regs[r].register(req, prov, name, v)
+                log.append(('register', r, req, prov, name, v))
+                regs_made.append((r, req, prov, name, v))
+            out.tag('rebuild_burst')
+        elif kind == 'tspec':
+            _, which, pick, idxs, mode = op
+            if not queried:
+                continue
+            key = queried[which % len(queried)]
+            if not key[2]:
+                continue
+            ref = key[2][-1 - (pick % 2) % len(key[2])]
+            targets = [U.ifaces[i % nI] for i in idxs]
+            if ref[0] == 'o':
+                ob = U.insts[ref[1] % len(U.insts)]
+                if mode == 0:
+                    directlyProvides(ob, *targets)
+                elif mode == 1:
+                    alsoProvides(ob, *targets)
+                elif mode == 2:
+                    classImplements(type(ob), *targets)
+                else:
+                    classImplementsOnly(type(ob), *targets)
+            elif ref[0] == 'c':
+                cls = U.classes[ref[1] % len(U.classes)]
+                if mode % 2:
+                    classImplementsOnly(cls, *targets)
+                else:
+                    classImplements(cls, *targets)
+            else:
+                # rebase the interface itself or one of its ancestors
+                anc = [j for j in models.reach(ibases, ref[1] % nI)]
+                i = sorted(anc)[pick % len(anc)]
+                desc = models.descendants(ibases, i)
+                cands = [j for j in range(nI) if j not in desc]
+                nb = []
+                for x in idxs:
+                    if cands:
+                        c = cands[x % len(cands)]
+                        if c not in nb:
+                            nb.append(c)
+                ibases[i] = nb
+                U.ifaces[i].__bases__ = tuple(U.ifaces[j] for j in nb) or \
+                    (U.Interface,)
+            out.tag('targeted_spec_change')
         elif kind == 'ibases':
             i = op[1] % nI
             desc = models.descendants(ibases, i)
@@ -428,6 +518,11 @@ def run_case(case, cfg, out):
             except ValueError:
                 pass
             out.tag('noLongerProvides')
-        if mutated and queried:
-            if not recheck('after op %d %r' % (n, op[:2])):
+        # not after every mutation: several mutations in a row without any
+        # lookup in between are histories too
+        if mutated and queried and skip_pattern[n % len(skip_pattern)]:
+            if not recheck('after op %d %r' % (n, op[:2]), rot=n * 7 + len(log),
+                           subset=(n % 3 == 0)):
                 return
+    if queried:
+        recheck('end', rot=len(log))
